@@ -111,6 +111,8 @@ finding(["C16"], "L3", "tensor.Copy@copyDense(%dt, %ts) ⊨ %ts.DataOrder().HasS
 finding(["C16"], "L4", "tensor.ToMat64@mat.NewDense( ?$t.DataOrder().IsColMajor()", "ToMat64 hands column-major storage to the row-major mat.Dense", "without a test of $t.DataOrder().IsColMajor()", 18)
 
 FIXED = [
+ {"property":"C16","commit":"1d0fb0b","rule":"T8","key":"tensor.(StdEng).denseTranspose{1,2,4,8,Arbitrary,String}, tensor.(StdEng).transposeMask","what":"fixed: property=C16 1d0fb0b the copying Transpose gathered elements last-axis-first and wrote them sequentially under column-major strides: every materialised transpose of a column-major tensor read back wrong elements ((2,3) AsFortran .T().Transpose(): 4 of 6; (2,3,4) T(1,2,0): 22 of 24) (DESIGN finding 56)"},
+ {"property":"C03","commit":"1d0fb0b","rule":"T8","key":"tensor.(StdEng).denseTranspose*","what":"fixed: property=C03 1d0fb0b same defect seen from C03: materialising a lazy transpose changed the logical contents of a column-major tensor (DESIGN finding 56)"},
  {"property":"C08","commit":"7ea84b4","rule":"DA","key":"internal/execution.(E).ArgmaxIterMasked#newMask, internal/execution.(E).ArgminIterMasked#newMask","what":"fixed: property=C08 7ea84b4 the axis-wise masked arg-reductions collected the lane's mask in newMask and passed the whole tensor's mask to the kernel: Argmax(1) of [[9 1 2] [3 8 4]] with 9 and 8 masked returned [2 1] instead of [2 2] (DESIGN finding 55)"},
  {"property":"C15","commit":"7ea84b4","rule":"DA","key":"internal/execution.(E).ArgmaxIterMasked#newMask","what":"fixed: property=C15 7ea84b4 same defect seen from C15: a masked element was returned as the arg-maximum of its lane (DESIGN finding 55)"},
  {"property":"C08","commit":"fc2883a","rule":"K9","key":"internal/execution.reduceDefault/*","what":"fixed: property=C08 fc2883a the middle-axis reduction kernel reduceDefault<T> (all 18 element types) jumped by stride instead of (dimSize-1)*stride between output groups: Sum along axis 2 of a (2,3,4,5) tensor returned 20 wrong values of 30; right only when the reduced axis has length 2 (DESIGN finding 54)"},
